@@ -657,11 +657,11 @@ def run(tier, seed):
     ng = 640 if quick else 40000
     for a in common.pmap(generated_shard, [(seed * 769 + i, ng // 32) for i in range(32)]):
         total.merge(a)
-    nm = 1920 if quick else 160000
+    nm = 1920 if quick else 40000
     for a in common.pmap(matrix_shard, [(seed * 773 + i, nm // 32) for i in range(32)]):
         total.merge(a)
     total.count("matrix_library_fields", len(MATRIX_CLUSTERS))
-    ns = 1600 if quick else 80000
+    ns = 1600 if quick else 30000
     for a in common.pmap(session_files_shard, [(seed * 787 + i, ns // 16) for i in range(16)]):
         total.merge(a)
     rule = (f"histories of 1..8 requests drawn from {len(REQS)} request programs that share one library value (through "
